@@ -12,16 +12,16 @@ fn(B + 'de_casteljau', properties=['C19'],
    requires=['len(P) >= 1', 'all(dot3(ha, P[k]) <= hb for k in range(len(P)))'],
    raises={'InvalidRangeArgumentError': 'not (0 <= t and t <= 1)'},
    locals={'coeffs': 'list[Vec3]'},
-   loops={1: loop(invariant=['len(coeffs) == len(P)', 'order == len(P) - 1', '0 <= t and t <= 1',
+   loops={0: loop(invariant=['len(coeffs) == len(P)', 'order == len(P) - 1', '0 <= t and t <= 1',
                              'all(dot3(ha, coeffs[i]) <= hb for i in range(len(P)))',
                              # after j rounds: t == 0 keeps the left end, t == 1 shifts by j
-                             'implies(t == 0, all(coeffs[i] == P[i] for i in range(len(P) - it1)))',
-                             'implies(t == 1, all(coeffs[i] == P[i + it1] for i in range(len(P) - it1)))']),
-          2: loop(invariant=['len(coeffs) == len(P)', 'order == len(P) - 1', '0 <= t and t <= 1', '0 <= it1 and it1 < order',
+                             'implies(t == 0, all(coeffs[i] == P[i] for i in range(len(P) - it0)))',
+                             'implies(t == 1, all(coeffs[i] == P[i + it0] for i in range(len(P) - it0)))']),
+          1: loop(invariant=['len(coeffs) == len(P)', 'order == len(P) - 1', '0 <= t and t <= 1', '0 <= it0 and it0 < order',
                              'all(dot3(ha, coeffs[i]) <= hb for i in range(len(P)))',
-                             'implies(t == 0, all(coeffs[i] == P[i] for i in range(len(P) - it1)))',
-                             'implies(t == 1, all(coeffs[i] == P[i + it1 + 1] for i in range(it2)))',
-                             'implies(t == 1, all(coeffs[i] == P[i + it1] for i in range(it2, len(P) - it1)))'])},
+                             'implies(t == 0, all(coeffs[i] == P[i] for i in range(len(P) - it0)))',
+                             'implies(t == 1, all(coeffs[i] == P[i + it0 + 1] for i in range(it1)))',
+                             'implies(t == 1, all(coeffs[i] == P[i + it0] for i in range(it1, len(P) - it0)))'])},
    modifies=[],
    ensures=['dot3(ha, result) <= hb',                       # stays in the convex hull of the control points
             'implies(t == 0, result == P[0])', 'implies(t == 1, result == P[len(P) - 1])',     # interpolates the end control points
